@@ -37,6 +37,38 @@ type VerifC04Case struct {
 	Crash    *VerifCrash `json:"crash,omitempty"`
 	Tail     []VerifOp   `json:"tail"` // executed by the parent after reopening
 	Pool     []string    `json:"pool"` // entity ids to look up
+	Mgmt     *VerifMgmt  `json:"mgmt,omitempty"` // dataset-management case: after Ops the child runs this op and dies inside it
+}
+
+// dataset-management operation of a management case
+type VerifMgmt struct {
+	Op string `json:"op"` // create | delete | rename
+	Ds string `json:"ds"`
+	To string `json:"to,omitempty"`
+}
+
+type VerifReg struct {
+	Name string `json:"name"`
+	ID   uint32 `json:"id"`
+}
+
+// what the parent sees of the dataset registry
+type VerifRegistry struct {
+	Datasets []VerifReg `json:"datasets"` // registered datasets (without core.Dataset), by name
+	Deleted  []uint32   `json:"deleted"`  // persisted deleted-datasets set
+	NextID   uint32     `json:"next_id"`
+}
+
+type VerifMgmtObs struct {
+	Err      string         `json:"err,omitempty"`
+	Reg      VerifRegistry  `json:"reg"`      // after reopen
+	After    *VerifDump     `json:"after"`    // registered datasets of the case, after reopen
+	NewErr   string         `json:"new_err,omitempty"`
+	Reg2     VerifRegistry  `json:"reg2"`     // after creating the fresh dataset "zz" and writing one entity into it
+	After2   *VerifDump     `json:"after2"`
+	GcErr    string         `json:"gc_err,omitempty"`
+	After3   *VerifDump     `json:"after3"`   // after GarbageCollector.Cleandeleted()
+	Ref      *VerifDump     `json:"ref"`      // crash-free reference: the same writes on a fresh store, no management op
 }
 
 // one line of the child's trace file
@@ -100,6 +132,7 @@ type VerifC04Obs struct {
 	TailShares [][]string `json:"tail_shares"`    // per tail op: datasets in the order ExecuteTransaction processed them
 	RefA    *VerifDump   `json:"refA,omitempty"`  // crash-free run of the acknowledged prefix on a fresh store
 	RefB    *VerifDump   `json:"refB,omitempty"`  // ... plus the interrupted write
+	Mgmt    *VerifMgmtObs `json:"mgmt,omitempty"`
 }
 
 // index of the op that was started but not finished according to the trace, else -1
@@ -222,6 +255,23 @@ func VerifC04Child(c VerifC04Case, dir string) {
 		verifTraceAppend(tf, VerifTrace{Kind: "op", Op: i, Lens: verifLens(h, op)})
 		oo := verifDoOp(h, op, i, times, tokens)
 		verifTraceAppend(tf, VerifTrace{Kind: "done", Op: i, Err: oo.Err + oo.Panic})
+	}
+	if c.Mgmt != nil {
+		verifTraceAppend(tf, VerifTrace{Kind: "mgmt", Arg: c.Mgmt.Op})
+		var err error
+		switch c.Mgmt.Op {
+		case "create":
+			_, err = h.dsm.CreateDataset(c.Mgmt.Ds, nil)
+		case "delete":
+			err = h.dsm.DeleteDataset(c.Mgmt.Ds)
+		case "rename":
+			_, err = h.dsm.UpdateDataset(c.Mgmt.Ds, &UpdateDatasetConfig{ID: c.Mgmt.To})
+		}
+		e := ""
+		if err != nil {
+			e = err.Error()
+		}
+		verifTraceAppend(tf, VerifTrace{Kind: "mgmtdone", Err: e})
 	}
 	verifhook.SetHandler(nil)
 	h.close()
@@ -565,5 +615,121 @@ func VerifC04Parent(c VerifC04Case, dir string, exit int) (obs VerifC04Obs) {
 	obs.Final = verifDump(h, c)
 	h.close()
 	obs.RefA, obs.RefB = verifReference(c, dir+"-ref", obs.NDone, obs.InProg)
+	return
+}
+
+func verifRegistry(h *verifHub) VerifRegistry {
+	r := VerifRegistry{Datasets: []VerifReg{}, Deleted: []uint32{}, NextID: h.store.nextDatasetID}
+	for _, n := range h.dsm.GetDatasetNames() {
+		if n.Name == "core.Dataset" {
+			continue
+		}
+		if ds := h.dsm.GetDataset(n.Name); ds != nil {
+			r.Datasets = append(r.Datasets, VerifReg{Name: n.Name, ID: ds.InternalID})
+		}
+	}
+	sort.Slice(r.Datasets, func(i, j int) bool { return r.Datasets[i].Name < r.Datasets[j].Name })
+	for id, del := range h.store.deletedDatasets {
+		if del {
+			r.Deleted = append(r.Deleted, id)
+		}
+	}
+	sort.Slice(r.Deleted, func(i, j int) bool { return r.Deleted[i] < r.Deleted[j] })
+	return r
+}
+
+func verifRegNames(r VerifRegistry) []string {
+	names := []string{}
+	for _, d := range r.Datasets {
+		names = append(names, d.Name)
+	}
+	return names
+}
+
+// VerifC04ParentMgmt: the child died inside (or finished) a dataset-management op: reopen, look at the registry and at every
+// registered dataset, create a fresh dataset and write to it, run the garbage collector, look again.
+func VerifC04ParentMgmt(c VerifC04Case, dir string, exit int) (obs VerifC04Obs) {
+	obs.Outcome = "ok"
+	obs.Exit = exit
+	obs.Trace = verifReadTrace(dir)
+	obs.Tail = []VerifOpObs{}
+	obs.InProg = -1
+	m := &VerifMgmtObs{}
+	obs.Mgmt = m
+	defer func() {
+		if r := recover(); r != nil {
+			obs.Outcome = "reopen-panic"
+			obs.Detail = fmt.Sprint(r) + " | " + verifStackTop()
+		}
+	}()
+	h := &verifHub{dir: dir}
+	first := func() (msg string) {
+		defer func() {
+			if r := recover(); r != nil {
+				msg = fmt.Sprint(r)
+				if h.errlog != nil {
+					msg += " | hub error log: " + strings.SplitN(h.errlog.String(), "\n", 2)[0]
+				}
+			}
+		}()
+		h.open()
+		return ""
+	}()
+	if first != "" {
+		obs.FirstOpen = first
+		h = &verifHub{dir: dir}
+		h.open()
+	}
+	defer h.close()
+	cc := c
+	m.Reg = verifRegistry(h)
+	cc.Datasets = verifRegNames(m.Reg)
+	m.After = verifDump(h, cc)
+	// a fresh dataset must get a fresh internal id and hold exactly what is written into it
+	if _, err := h.dsm.CreateDataset("zz", nil); err != nil {
+		m.NewErr = "create: " + err.Error()
+	} else if ds := h.dsm.GetDataset("zz"); ds != nil {
+		ents, err := verifParse(h.store, []VerifEnt{{ID: "z1", Props: map[string]interface{}{"p1": "z"}, Refs: map[string]interface{}{}}})
+		if err == nil {
+			err = ds.StoreEntities(ents)
+		}
+		if err != nil {
+			m.NewErr = "write: " + err.Error()
+		}
+	}
+	m.Reg2 = verifRegistry(h)
+	cc.Datasets = verifRegNames(m.Reg2)
+	m.After2 = verifDump(h, cc)
+	gc := NewGarbageCollector(h.store, h.cfg)
+	if err := gc.Cleandeleted(); err != nil {
+		m.GcErr = err.Error()
+	}
+	m.After3 = verifDump(h, cc)
+	h.close()
+	// reference: the writes alone
+	func() {
+		rd := dir + "-ref"
+		_ = os.MkdirAll(rd, 0o755)
+		defer os.RemoveAll(rd)
+		rh := &verifHub{dir: rd}
+		rh.open()
+		defer rh.close()
+		for _, d := range c.Datasets {
+			if _, err := rh.dsm.CreateDataset(d, nil); err != nil {
+				m.Err += "ref setup: " + err.Error() + ";"
+				return
+			}
+		}
+		times := make(map[int]int64)
+		tokens := make(map[string]int64)
+		for i, op := range c.Ops {
+			if op.Op == "restart" {
+				continue
+			}
+			verifDoOp(rh, op, i, times, tokens)
+		}
+		rc := c
+		m.Ref = verifDump(rh, rc)
+	}()
 	return
 }
